@@ -42,7 +42,7 @@ MinOrder(op) == IF op \in ProductOps THEN 1 ELSE 2
 
 Init == /\ expect = [t |-> "none"]
         /\ \E op \in OPS, N \in SHAPES, r \in RANKS, e \in EPSEXP, g \in GUESS, s \in SEEDS, cx \in BOOLEAN, be \in BACKENDS,
-              data \in {"rand", "decay", "zero"}, sq \in BOOLEAN,
+              data \in {"rand", "decay", "zero", "col1"}, sq \in BOOLEAN,
               prec \in PREC \cup {"none"}, mf \in MAXFULL \cup {500}, ls \in SOLVER \cup {1}, sys \in SYSCLS \cup {"na"},
               sc \in SCALES \cup {"unit"} :
              /\ Len(N) >= MinOrder(op)
@@ -53,6 +53,8 @@ Init == /\ expect = [t |-> "none"]
              /\ (cx => ComplexOK(op))
              /\ (be = "cpp" => op \in {"fast_matvec", "amen_solve"} /\ ~cx)
              /\ (data = "decay" => op \in ProductOps \cup SolveOps)
+             \* data = "col1": amen_mm with a second operand whose column modes are all 1 (the result is still a TT matrix)
+             /\ (data = "col1" => op = "amen_mm" /\ sc = "unit")
              \* data = "zero": the second operand (products), the right-hand side (solve) or the numerator (divide) is exactly zero;
              \* the exact result is the zero tensor and the routine has to return it (to roundoff), not to fail
              /\ (data = "zero" => op \in ProductOps \cup SolveOps \cup DivideOps /\ g = "none" /\ sc = "unit" /\ r = 1)
